@@ -8,9 +8,29 @@ IMPORTS = ("From Coq Require Import List Ascii String NArith ZArith Bool.\n"
            "From Galaxy.Corr Require Import CorrBase C20c.\n")
 
 THEOREMS = ["range_roundtrip", "ipv4_roundtrip", "cidr_roundtrip", "accepted_valid", "size_card",
-            "contains_enumerate", "enumerate_terminates", "pool_roundtrip", "reject_changes_nothing"]
+            "contains_enumerate", "enumerate_terminates", "pool_roundtrip"]
 REFUTED = ["accepted_valid_refuted_wrap", "walk_refuted_wrap"]
 
+DEPS = ["Strs", "Nets", "Pool", "NetsP", "PoolP", "CorrBase", "C20c", "C20"]
+MANIFEST = {
+    "text": "Coq theorems over an executable model of nets/ip.go and floatingip.go (range/CIDR/IPv4 print-parse round trips, "
+            "accepted_valid, size_card, contains_enumerate, enumerate_terminates, pool_roundtrip) hold for ALL JSON trees, "
+            "addresses and ranges; the model is tied to the working tree by running ~2400 (quick) generated + corpus cases "
+            "through the real decoder/encoder/Contains/Size/ConfigurePool and through the model, and the theorems' predicates "
+            "are also evaluated as monitors on the implementation's own outputs",
+    "note": "trusted: Coq kernel (no axioms), Go harness + python printers, encoding/json's lexer (the model starts at the JSON "
+            "tree), IPv4/ASCII/escape-free/duplicate-free domain; IPv6 text is only checked for no panic / no hang",
+}
+KNOWN_FINDINGS = [
+    {"id": "F9", "status": "fixed", "commit": "a344d99", "tag": "c20-order-check-wraps",
+     "what": "fixed: property=C20 a344d99 fipCheck accepted unsorted/duplicate ranges after a range ending at 255.255.255.255 "
+             "(Last+1 wrapped in uint32); witness accepted_valid_refuted_wrap, corpus pool 1"},
+    {"id": "F4", "status": "fixed", "commit": "7cee827", "tag": "c20-walk-never-returns",
+     "what": "fixed: property=C20 7cee827 walkIPRanges never returned for a range ending at 255.255.255.255 (uint32 loop "
+             "variable wrapped), cache lock held; witness walk_refuted_wrap, corpus pool 2"},
+    {"id": "F8a", "status": "fixed", "commit": "701da2e", "tag": "c20-null-node-subnet-panic",
+     "what": "fixed: property=C20 701da2e \"nodeSubnets\":[null] made FloatingIPPool.UnmarshalJSON dereference nil; corpus pool 4"},
+]
 KEY_ORDER = ["nodeSubnets", "ips", "subnet", "gateway", "vlan"]
 
 
@@ -324,7 +344,7 @@ def run(ctx):
         "checked for 'no panic, no hang'"]
     ctx.assumptions += ["the pool JSON reaches the model as a tree: Go's encoding/json lexer is not modelled",
                         "uint32 arithmetic of IPRange.Size/fipCheck/walkIPRanges is written into the model explicitly"]
-    ctx.theorems("C20", THEOREMS, REFUTED)
+    ctx.theorems("C20", THEOREMS, REFUTED, deps=DEPS)
     flags = "cur_flags"
     # ---- corpus first
     corpus = json.load(open(vf.ROOT + "/corpus/C20.json"))
